@@ -5,10 +5,13 @@ package main
 // findings, replay counterexamples, write evidence, print verdict lines.
 
 import (
+	"bytes"
+	"context"
 	"encoding/json"
 	"flag"
 	"fmt"
 	"os"
+	"os/exec"
 	"path/filepath"
 	"sort"
 	"strconv"
@@ -368,6 +371,34 @@ func cmdCheck(args []string) int {
 			undecided = append(undecided, fmt.Sprintf("%s: %s", r.Func, r.Err))
 		}
 	}
+	// bounded refutation (never part of the proof): when obligations of this
+	// property are undecided, look for a concrete failing input with the
+	// property's native harness, if there is one
+	var boundedNote string
+	harness := filepath.Join(*verif, "harness", prop+"_bounded_test.go")
+	if _, err := os.Stat(harness); err == nil && (len(undecided) > 0 || *tier == "thorough") {
+		out, herr := runHarness(harness, *repo, prop)
+		switch {
+		case strings.Contains(out, "BOUNDED-REFUTATION"):
+			line := ""
+			for _, l := range strings.Split(out, "\n") {
+				if strings.HasPrefix(l, "BOUNDED-REFUTATION") {
+					line = l
+					break
+				}
+			}
+			os.MkdirAll(replayDir, 0o755)
+			path := filepath.Join(replayDir, prop+"-bounded-refutation.txt")
+			os.WriteFile(path, []byte("property: "+prop+"\nfound by: bounded refutation harness "+harness+" (go test -overlay, real code)\nundecided obligations that triggered the search:\n  "+strings.Join(undecided, "\n  ")+"\n\n"+line+"\n\nfull output:\n"+out), 0o644)
+			violations++
+			violLines = append(violLines, fmt.Sprintf("VIOLATION property=%s replay=%s bounded refutation on the real code: %s", prop, path, strings.TrimPrefix(line, "BOUNDED-REFUTATION ")))
+			boundedNote = "failing input found: " + line
+		case herr != nil && !strings.Contains(out, "BOUNDED-OK") && !strings.Contains(out, "ok  "):
+			boundedNote = "harness did not run: " + firstLines(out, 3)
+		default:
+			boundedNote = "no failing input within the bound (this is not a proof)"
+		}
+	}
 	// samples: a few discharged obligations written out
 	for _, b := range order {
 		if len(samples) >= 5 {
@@ -436,6 +467,7 @@ func cmdCheck(args []string) int {
 		"undecided":                undecided,
 		"known_findings":           knownLines,
 		"abstracted_constructs":    abstrL,
+		"bounded_refutation":       boundedNote,
 		"rule":                     "one obligation per contract clause, loop-invariant step, call precondition and implicit Go safety condition, per case of the declared case split; an obligation counts only if it was discharged on the pinned tree (obligations.lock)",
 	}
 	ev.WallS = round3(time.Since(t0).Seconds())
@@ -539,4 +571,39 @@ func writeNoInputReplay(dir, prop string, o *Obligation, rp *replayResult) strin
 	fmt.Fprintf(&sb, "solver output:\n%s\n", o.Output)
 	os.WriteFile(path, []byte(sb.String()), 0o644)
 	return path
+}
+
+// runHarness runs a bounded-refutation harness (an in-package Go test file
+// kept under /verif/harness) against the repository through an overlay.
+func runHarness(harness, repo, prop string) (string, error) {
+	dir, err := os.MkdirTemp("", "govc-harness")
+	if err != nil {
+		return "", err
+	}
+	defer os.RemoveAll(dir)
+	ov := map[string]any{"Replace": map[string]string{filepath.Join(repo, "zz_govc_bounded_test.go"): harness}}
+	data, _ := json.Marshal(ov)
+	of := filepath.Join(dir, "overlay.json")
+	os.WriteFile(of, data, 0o644)
+	ctx, cancel := context.WithTimeout(context.Background(), 300*time.Second)
+	defer cancel()
+	cmd := exec.CommandContext(ctx, "go", "test", "-tags", "verif", "-overlay", of, "-vet=off", "-count=1", "-v", "-timeout", "240s", "-run", "^TestGovcBounded"+prop+"$", ".")
+	cmd.Dir = repo
+	cmd.Env = append(os.Environ(), "GOFLAGS=-mod=mod", "GOPROXY=off", "GOSUMDB=off", "GOTOOLCHAIN=local")
+	var buf bytes.Buffer
+	cmd.Stdout = &buf
+	cmd.Stderr = &buf
+	err = cmd.Run()
+	var keep []string
+	for _, l := range strings.Split(buf.String(), "\n") {
+		if strings.Contains(l, " TRACE ") || strings.Contains(l, " DEBUG ") || strings.Contains(l, " INFO ") {
+			continue
+		}
+		keep = append(keep, l)
+	}
+	out := strings.Join(keep, "\n")
+	if len(out) > 8000 {
+		out = out[:8000]
+	}
+	return out, err
 }
